@@ -146,8 +146,22 @@ func (r *Report) Assume(s string) {
 func (r *Report) NotExhaustive(why string) {
 	r.mu.Lock()
 	r.Exhaustive = false
-	r.Extra["not_exhaustive_because"] = why
+	r.addReason(why)
 	r.mu.Unlock()
+}
+
+// addReason keeps every distinct reason (r.mu held).
+func (r *Report) addReason(why string) {
+	cur, _ := r.Extra["not_exhaustive_because"].(string)
+	for _, w := range strings.Split(cur, " || ") {
+		if w == why {
+			return
+		}
+	}
+	if cur != "" {
+		why = cur + " || " + why
+	}
+	r.Extra["not_exhaustive_because"] = why
 }
 
 func (r *Report) EngineError(s string) {
@@ -240,6 +254,14 @@ func (r *Report) Merge(p *Report) {
 		r.Rule = p.Rule
 	}
 	for k, v := range p.Extra {
+		if k == "not_exhaustive_because" {
+			if str, ok := v.(string); ok {
+				for _, w := range strings.Split(str, " || ") {
+					r.addReason(w)
+				}
+				continue
+			}
+		}
 		r.Extra[k] = v
 	}
 	for k, v := range p.Counters {
